@@ -203,6 +203,14 @@ def stalled {V : Type} (l : List (Event V)) : List (Event V) :=
     | .closed .eof => .closed .timeout
     | e => e
 
+/-- the connection is reset instead of being closed in good order: the `Read` that would have seen
+EOF gets a `net.Error` that is no time-out (`handleError` → `ErrUnknown`, tcp.go:282-299), at the
+same position of the stream; fatal (router.go:493-498). -/
+def wasReset {V : Type} (l : List (Event V)) : List (Event V) :=
+  l.map fun
+    | .closed .eof => .closed .unknownNet
+    | e => e
+
 /-- what a sender's `c.Send` calls put on the wire, one after the other (tcp.go:189-235) -/
 def wire (bufs : List (List Nat)) : List Nat := (bufs.map encFrame).flatten
 
@@ -697,6 +705,13 @@ def stalledEnv (l : List (EnvEvent (List Nat))) : List (EnvEvent (List Nat)) :=
     | .closed .eof => .closed .timeout
     | e => e
 
+/-- the connection is reset instead of closed in good order: the `Read` that would have seen EOF
+gets a `net.Error` that is no time-out — `handleError` → `ErrUnknown` (tcp.go:282-299), fatal -/
+def resetEnv (l : List (EnvEvent (List Nat))) : List (EnvEvent (List Nat)) :=
+  l.map fun
+    | .closed .eof => .closed .unknownNet
+    | e => e
+
 /-- for `send`, the harness sees *that* the receiving router dropped the connection, not why -/
 def showLive (l : List (Event (List Nat))) : String :=
   if l.isEmpty then "-" else ",".intercalate (l.map fun
@@ -710,13 +725,20 @@ def sendable (cd : Codec (List Nat)) : List (List Nat) → List (List Nat) × Bo
   | [] => ([], true)
   | b :: l => if cd.sendable b then let r := sendable cd l; (b :: r.1, r.2) else ([], false)
 
-/-- `<sizes>` or `<sizes>~<sizes>`: the sender stalls (longer than the read deadline) after the
-bytes of the first list; the second list cuts what it writes afterwards -/
-def parseChunks (s : String) : Option (List Nat × Bool) :=
+/-- `<sizes>`, `<sizes>~<sizes>` or `<sizes>!`: after the bytes of the first list the sender stalls
+for longer than the read deadline (`~`, the second list cuts what it writes afterwards) or the
+connection is reset (`!`) -/
+inductive Cut where
+  | plain | stall | reset
+  deriving DecidableEq, Repr
+
+def parseChunks (s : String) : Option (List Nat × Cut) :=
   match s.splitOn "~" with
-  | [a] => (Util.natList a).map (·, false)
+  | [a] =>
+    if a.endsWith "!" then (Util.natList (a.dropEnd 1).toString).map (·, .reset)
+    else (Util.natList a).map (·, .plain)
   | [a, b] => match Util.natList a, Util.natList b with
-    | some a, some _ => some (a, true)
+    | some a, some _ => some (a, .stall)
     | _, _ => none
   | _ => none
 
@@ -855,14 +877,15 @@ def step (s : State) (toks : List String) : State × String :=
     | none => (s, "bad-op")
   | ["loop", fr, tl, ch] =>
     match hexList fr, Util.unhex tl, parseChunks ch with
-    | some fr, some tl, some (ch, false) =>
+    | some fr, some tl, some (ch, .plain) =>
       let c := cut (wire fr ++ tl) ch
       (s, showEnvEvents (recvEnvLoop cd s.max 0 procs (inflight c + 1) c))
-    | some fr, some tl, some (ch, true) =>
-      -- only the bytes written before the stall ever reach the receive loop
+    | some fr, some tl, some (ch, mode) =>
+      -- only the bytes written before the stall / the reset ever reach the receive loop
       let seen := (wire fr ++ tl).take (ch.foldl (· + ·) 0)
       let c := cut seen ch
-      (s, showEnvEvents (stalledEnv (recvEnvLoop cd s.max 0 procs (inflight c + 1) c)))
+      let evs := recvEnvLoop cd s.max 0 procs (inflight c + 1) c
+      (s, showEnvEvents (if mode = .stall then stalledEnv evs else resetEnv evs))
     | _, _, _ => (s, "bad-op")
   | ["iface", _via, su, vs, kd, n, _seed] =>
     match parseSuite su, parseSuite vs, parseKind kd, n.toNat? with
